@@ -45,6 +45,74 @@ pub mod trysort;
 pub mod try_heap;
 #[path = "real/fenced_string.rs"]
 pub mod fenced_string;
+/// finite-map model standing in for std::collections::HashMap<&'static str, V> in the copy of permissions.rs:
+/// an association list; keys are compared as strings are (length and bytes)
+pub mod mapmodel {
+    /// fixed-capacity association list (8 slots; the harness uses at most 6 distinct keys and asserts no overflow)
+    #[derive(Debug)]
+    pub struct HashMap<K, V> {
+        slots: [Option<(K, V)>; 8],
+    }
+    impl<K, V> Default for HashMap<K, V> {
+        fn default() -> Self {
+            HashMap { slots: [None, None, None, None, None, None, None, None] }
+        }
+    }
+    impl<V> HashMap<&'static str, V> {
+        pub fn get(&self, k: &str) -> Option<&V> {
+            let mut i = 0;
+            while i < 8 {
+                if let Some((sk, v)) = &self.slots[i] {
+                    if same(sk, k) {
+                        return Some(v);
+                    }
+                }
+                i += 1;
+            }
+            None
+        }
+        pub fn insert(&mut self, k: &'static str, v: V) -> Option<V> {
+            let mut i = 0;
+            while i < 8 {
+                match &mut self.slots[i] {
+                    Some((sk, sv)) => {
+                        if same(sk, k) {
+                            return Some(std::mem::replace(sv, v));
+                        }
+                    }
+                    None => {
+                        self.slots[i] = Some((k, v));
+                        return None;
+                    }
+                }
+                i += 1;
+            }
+            panic!("mapmodel: capacity exceeded")
+        }
+    }
+    /// string equality, written without memcmp: same length and the same bytes (ids are <= 16 bytes here)
+    fn same(a: &str, b: &str) -> bool {
+        if a.len() != b.len() || a.len() > 16 {
+            return a.len() == b.len() && a == b;
+        }
+        let (x, y) = (a.as_bytes(), b.as_bytes());
+        let mut i = 0;
+        while i < 16 {
+            if i < x.len() && x[i] != y[i] {
+                return false;
+            }
+            i += 1;
+        }
+        true
+    }
+}
+#[path = "real/permissions_mapmodel.rs"]
+pub mod permissions;
+#[path = "real/builtin_mod.rs"]
+pub mod builtin;
+/// source slices (see /verif/kani/unit/slices and vlib/slices.py)
+#[path = "real/slices_mod.rs"]
+pub mod slices;
 // MODULES-LATER
 #[cfg(kani)]
 mod h;
